@@ -185,6 +185,7 @@ func Run(c *vk.Ctx) {
 			exploreOne(c, in, f, data, bound)
 		}
 	}
+	fetchOrders(c, &idx)
 	if c.Shard == 0 {
 		Laws(c)
 	}
